@@ -376,7 +376,23 @@ def rule_invalid_fstring(case, sig, extra, match):
     return any(t.type.name == 'FSTRING_START' for t in tokenize(extra[0], version_info=parse_version_string(extra[1])))
 
 
-RULES = {'c10_leading_zero': rule_leading_zero, 'c10_diamond': rule_diamond,
+def rule_tab_width(case, sig, extra, match):
+    """C10-F8: parso counts a tab in indentation as one column, CPython moves to the next multiple of 8.  The two only
+    disagree when indentation mixes tabs with spaces/form feeds across lines, which the compiler rejects
+    (TabError / IndentationError)."""
+    if not extra or not _rejected(extra):
+        return False
+    kinds = set()
+    for m in _LINE_START.finditer(extra[0]):
+        ws = m.group(2)
+        if '\t' in ws:
+            kinds.add('tab')
+        if ' ' in ws or '\f' in ws:
+            kinds.add('other')
+    return kinds == {'tab', 'other'}
+
+
+RULES = {'c10_tab_width': rule_tab_width, 'c10_leading_zero': rule_leading_zero, 'c10_diamond': rule_diamond,
          'c10_break_keyword_in_brackets': rule_break_keyword_in_brackets, 'c10_invalid_fstring': rule_invalid_fstring,
          'c10_formfeed_indent': rule_formfeed_indent, 'c10_leading_backslash': rule_leading_backslash,
          'c10_not_compilable': rule_not_compilable}
